@@ -157,7 +157,7 @@ func genC11(e *emitter, tier string, seed int64) {
 		"set_measurement(k)", "set_measurement(k, true)", "set_measurement(k, false)", `set_measurement("lit")`, `set_measurement("lit", true)`, `set_measurement("other", true)`, `set_measurement("ot", true)`, `set_measurement("k", true)`, `set_measurement("other", false)`, "set_measurement(nosuch)", "set_measurement(1/zero)",
 		"p(len(k))", `p(len("héllo"))`, "p(len([1,2]))", "p(len(nosuch))",
 		"p(load_json(k))", `p(load_json("[1, 2.5, {\"a\": null}]"))`, `p(load_json("{\"user\": \"bob\"} -- tail"))`, `p(load_json("{\"seq\": 1}{\"seq\": 2}"))`, `p(load_json("404 not found"))`, `p(load_json("true}"))`, `p(load_json("[1, 2]]"))`, `p(load_json(" [1] "))`, "x = load_json(k)\np(x[\"a\"][1])", `p(load_json("{bad"))`, "p(load_json(5))",
-		`strfmt(out, "%v-%s-%d", k, "x", 3)`, `strfmt(k, "%v", k)`, `strfmt(out, "%v %v", 1.5, [1, "a"])`, `strfmt(out, "%d", "notint")`, `strfmt(out, "%v", 1/zero)`, `strfmt(out, "nofmt")`,
+		`strfmt(out, "%v-%s-%d", k, "x", 3)`, `strfmt(k, "%v", k)`, `strfmt(out, "%v %v", 1.5, [1, "a"])`, `strfmt(out, "%d", "notint")`, `strfmt(out, "%v", 1/zero)`, `strfmt(out, "nofmt")`, `strfmt(out, "100%%")`, `strfmt(out, "%%d of %%")`, `strfmt(out, "50%")`, `strfmt(out, "")`, `strfmt(out, "%%", k)`,
 		`printf("%v|%s|%d\n", k, "x", 3)`, `printf("plain\n")`, "printf(k)", `printf("%v", 1/zero)`, "printf(5, 1)", `printf("")`,
 		"trim(k)", `trim(k, " a")`, `trim(k, "")`, `trim("k")`,
 		"uppercase(k)", `uppercase("k")`,
